@@ -282,7 +282,7 @@ func callDecoder(fn string, in []byte, txns []*wire.MsgTx) {
 // for real).  This is not an oracle: it only decides what is safe to run.
 // ---------------------------------------------------------------------------
 
-const execLimit = 64 << 20
+const execLimit = 4 << 20
 
 // txoutAlloc mirrors decodeCompressedTxOut: the make() size of decompressScript,
 // the bytes consumed and whether decoding continues normally.
